@@ -562,7 +562,7 @@ def _ringwalk_rule(chk, prog):
                 n += 1
                 chk.instance(rule)
                 chk.ok(rule, "%s: %s (unreachable site)" % (fn.name, what))
-    chk.floor(rule, 5, n)
+    chk.floor(rule, 3, n)
 
 
 def _runq_rule(chk, prog):
